@@ -104,6 +104,25 @@ def cwLine (w : List String) : String :=
     | none => "bad-op"
   | _ => "bad-op"
 
+/-- which path of `cache_over_ip::fetch` a fetch takes (coverage trace; printed after ` # `, not compared) -/
+def fetchBranch (cl : Cluster) : C10.Op → String
+  | .fetch c nowC nowS k _ =>
+    match cl.servers[shard cl.servers.length k]? with
+    | none => "noserver"
+    | some s =>
+      match cl.l1 c with
+      | none => (match (tcpFetch s nowS k true none).2 with | .found .. => "nol1-found" | _ => "nol1-miss")
+      | some l =>
+        match (C07.step l (.fetch nowC k)).2 with
+        | .hit _ _ _ g =>
+          (match (tcpFetch s nowS k true (some g)).2 with
+           | .upToDate => "l1hit-uptodate" | .notFound => "l1hit-purge" | .found .. => "l1hit-refresh")
+        | _ => (match (tcpFetch s nowS k true none).2 with | .found .. => "l1miss-found" | _ => "l1miss-miss")
+  | .store .. => "store"
+  | .rise .. => "rise"
+  | .clear .. => "clear"
+  | _ => "other"
+
 def modelLine (st : DState) (w : List String) : DState × String :=
   match w with
   | "cw" :: rest => (st, cwLine rest)
@@ -111,7 +130,7 @@ def modelLine (st : DState) (w : List String) : DState × String :=
     match parseLimits sl, parseL1s l1 with
     | some sl, some l1 =>
       let cl := Cluster.init sl l1
-      ({ cl := cl, sp := C07.Spec.empty, mayEvict := sl.any (· > 0) || l1.any (fun o => o.any (· > 0)) }, s!"ok | {tailStr cl}")
+      ({ cl := cl, sp := C07.Spec.empty, mayEvict := sl.any (· > 0) }, s!"ok | {tailStr cl}")
     | _, _ => (st, "bad-op")
   | ["raw", i, now, fr] =>
     match i.toNat?, now.toInt?, parseHex fr with
@@ -154,7 +173,7 @@ def modelLine (st : DState) (w : List String) : DState × String :=
     match parseOp w with
     | some op =>
       let (cl', o) := step st.cl op
-      ({ st with cl := cl' }, s!"{outStr o} | {tailStr cl'}")
+      ({ st with cl := cl' }, s!"{outStr o} | {tailStr cl'} # {fetchBranch st.cl op}")
     | none => (st, "bad-op")
 
 def splitAt (sep : String) (w : List String) : List String × List String :=
@@ -178,8 +197,8 @@ def judgeLine (st : DState) (w : List String) : DState × String :=
   match casew with
   | ["cfg", sl, l1] =>
     match parseLimits sl, parseL1s l1 with
-    | some sl, some l1 =>
-      ({ st with sp := C07.Spec.empty, mayEvict := sl.any (· > 0) || l1.any (fun o => o.any (· > 0)) },
+    | some sl, some _ =>
+      ({ st with sp := C07.Spec.empty, mayEvict := sl.any (· > 0) },
         if res == ["ok"] then "1" else "0 cfg-answer")
     | _, _ => (st, "0 bad-case")
   | _ =>
@@ -189,7 +208,10 @@ def judgeLine (st : DState) (w : List String) : DState × String :=
       | .fetch _ _ nowS k tg =>
         (st, if Spec.answerOk st.sp nowS k st.mayEvict tg out then "1" else
           match out with
-          | .hit _ _ _ _ => "0 fetch-returned-a-value-that-is-not-current"
+          | .hit _ _ _ _ =>
+            -- the predicate is `answerOk`; this only names the clause that failed
+            if Spec.answerOk st.sp nowS k st.mayEvict false out then "0 trigger-set-not-preserved"
+            else "0 fetch-returned-a-value-that-is-not-current"
           | _ => "0 live-entry-not-found")
       | .store _ _ k v ts d =>
         ({ st with sp := Spec.ideal st.sp (.store k v ts d) }, if out == .done then "1" else "0 answer")
